@@ -1,0 +1,15 @@
+//go:build verif
+
+package deque
+
+// VerifState exposes the raw ring-buffer coordinates (read-only) for the /verif harness.
+func (d *Deque[T]) VerifState() (capacity, front, back, gen int) {
+	return len(d.a), d.front, d.back, d.gen
+}
+
+// VerifSlots returns a copy of the raw backing buffer, live and vacated slots alike.
+func (d *Deque[T]) VerifSlots() []T {
+	out := make([]T, len(d.a))
+	copy(out, d.a)
+	return out
+}
